@@ -353,13 +353,52 @@ GraphOut(g) == [nodes |-> { [id |-> n, nt |-> g.nodes[n].nt, label |-> g.nodes[n
 
 NoCtx == [N |-> {}, E |-> {}, err |-> "unset"]
 
+(***************************************************************************)
+(* 4b. Event-level binding of the Impl layer (trace validation).           *)
+(*  The verif hook VerifOnWeightStep of the real code fires when a step of *)
+(*  the weight assignment has RETURNED: "edge" after calculateEdgeWeight,   *)
+(*  "node" after the recursive calculateNodeWeight of an edge's target,    *)
+(*  "root" after the calculateNodeWeight that AssignWeights starts. The    *)
+(*  algorithm below passes through the same three points (cn3, ce2, m1)    *)
+(*  and compares what it holds there with the logged event: what the step  *)
+(*  returned (cycle set, error class), the weights and wildcards of the    *)
+(*  node / edge concerned - placeholders R#n included - and, at a root,    *)
+(*  the whole weight state. An input without `events` matches anything.    *)
+(***************************************************************************)
+ErrCls(e) == CASE e = "none" -> "none" [] e = "modelcycle" -> "modelcycle"
+               [] e \in {"tuplecycle:constraint", "tuplecycle:unresolved"} -> "tuplecycle" [] OTHER -> "invalid"
+FullState(C, nw, ew, nwc, ewc) ==
+  [nw |-> UNION { { <<n, k[1], k[2], nw[n][k]>> : k \in DOMAIN nw[n] } : n \in C.N },
+   ew |-> UNION { { <<C.EPos[e][1], C.EPos[e][2], k[1], k[2], ew[e][k]>> : k \in DOMAIN ew[e] } : e \in C.E },
+   nwc |-> UNION { { <<n, t>> : t \in nwc[n] } : n \in C.N },
+   ewc |-> UNION { { <<C.EPos[e][1], C.EPos[e][2], t>> : t \in ewc[e] } : e \in C.E }]
+HasEvents(inp) == "events" \in DOMAIN inp
+EvMatch(inp, n, got) ==
+  ~HasEvents(inp) \/
+  (n <= Len(inp.events) /\
+   LET e == inp.events[n] IN
+     /\ e.k = got.k /\ e.id = got.id /\ e.pos = got.pos /\ e.err = got.err
+     /\ Range(e.w) = got.w /\ Range(e.wc) = got.wc /\ Range(e.cyc) = got.cyc
+     /\ (got.k = "root" => /\ Range(e.nw) = got.full.nw /\ Range(e.ew) = got.full.ew
+                            /\ Range(e.nwc) = got.full.nwc /\ Range(e.ewc) = got.full.ewc))
+EvWant(inp, n) == IF HasEvents(inp) /\ n <= Len(inp.events) THEN [k |-> inp.events[n].k, id |-> inp.events[n].id, pos |-> inp.events[n].pos] ELSE [k |-> "end of trace"]
+
 (* --algorithm AssignWeights {
 variables ti \in 1..Len(Inputs),
           \* C (the context of Graph(M)) and ideal are computed in the first step, not in Init: TLC computes initial
           \* states on one thread but takes steps on all workers
           C = NoCtx, ideal = <<>>,
           visited = {}, nw = <<>>, ew = <<>>, nwc = <<>>, ewc = <<>>,
-          tcd = <<>>, retCycles = {}, retErr = "none", roots = <<>>, root = "", result = "running";
+          tcd = <<>>, retCycles = {}, retErr = "none", roots = <<>>, root = "", result = "running",
+          evn = 0, evbad = 0;      \* events passed so far, index of the first one that differs from the logged trace (0: none)
+
+macro Ev(got) {
+  if (evbad = 0 /\ ~EvMatch(Inputs[ti], evn + 1, got)) {
+    print ToJson([rec |-> "evmismatch", id |-> Inputs[ti].id, n |-> evn + 1, got |-> got, want |-> EvWant(Inputs[ti], evn + 1)]);
+    evbad := evn + 1;
+  };
+  evn := evn + 1;
+}
 
 procedure CalcNode(nodeID, path) variables cycles = {}, idx = 1, outs = <<>>, cur = 0;
 {
@@ -375,7 +414,8 @@ cn2: while (idx <= Len(outs)) {
          idx := idx + 1;
        } else {
          call CalcEdge(cur, path);
-cn3:     if (ewc[cur] = {}) { ewc[cur] := nwc[C.To[cur]]; };
+cn3:     Ev([k |-> "edge", id |-> nodeID, pos |-> C.EPos[cur][2], w |-> WOut(ew[cur]), wc |-> ewc[cur], cyc |-> retCycles, err |-> ErrCls(retErr)]);
+         if (ewc[cur] = {}) { ewc[cur] := nwc[C.To[cur]]; };
 cn3b:    nwc[nodeID] := nwc[nodeID] \cup ewc[cur];
          if (retErr # "none") { retCycles := cycles \cup retCycles; return; }
          else { cycles := cycles \cup retCycles; idx := idx + 1; };
@@ -397,7 +437,8 @@ ce0: if (C.From[edge] = C.To[edge]) {
          retCycles := {C.From[edge]}; retErr := "none"; return; }
        else { retCycles := {}; retErr := "modelcycle"; return; } };
 ce1: np := Append(epath, edge); call CalcNode(C.To[edge], np);
-ce2: if (retErr # "none") { return; };
+ce2: Ev([k |-> "node", id |-> C.To[edge], pos |-> 0, w |-> WOut(nw[C.To[edge]]), wc |-> nwc[C.To[edge]], cyc |-> retCycles, err |-> ErrCls(retErr)]);
+     if (retErr # "none") { return; };
 ce3: if (DOMAIN nw[C.To[edge]] = {}) {                  \* "no weight" = back edge ... or finished with an empty map
        if (IsTupleCycleOn(C, C.To[edge], np)) {            \* classification by DFS stack path (Dev_BackEdgeByStackPath)
          ew[edge] := (RKey(C.To[edge]) :> Inf); tcd[C.To[edge]] := tcd[C.To[edge]] \cup {edge};
@@ -424,24 +465,26 @@ mb: print ToJson([rec |-> "input", id |-> Inputs[ti].id, m |-> Inputs[ti].m, g |
 m0: while (result = "running" /\ Unvisited(C, visited) # {}) {
       with (n \in RootChoices(Inputs[ti], C, visited, roots)) { roots := Append(roots, n); root := n; };
 m0b:  call CalcNode(root, <<>>);
-m1:   if (retErr # "none") { result := retErr; } else if (retCycles # {}) { result := "tuplecycle:unresolved"; };
+m1:   Ev([k |-> "root", id |-> root, pos |-> 0, w |-> WOut(nw[root]), wc |-> nwc[root], cyc |-> retCycles, err |-> ErrCls(retErr), full |-> FullState(C, nw, ew, nwc, ewc)]);
+      if (retErr # "none") { result := retErr; } else if (retCycles # {}) { result := "tuplecycle:unresolved"; };
       root := "";
     };
 m2: if (result = "running") {
       if ("EmptyWeightsAccepted" \notin Devs /\ \E n \in C.N : C.nt[n] = "rel" /\ DOMAIN nw[n] = {}) { result := "invalid:noterminal"; }   \* post-pass of the D9 fix
       else { result := "ok"; } };
-m3: print ToJson([rec |-> "outcome", id |-> Inputs[ti].id, roots |-> roots, out |-> Outcome(C, result, nw, ew, nwc, ewc)]);
+m3: print ToJson([rec |-> "outcome", id |-> Inputs[ti].id, roots |-> roots, out |-> Outcome(C, result, nw, ew, nwc, ewc), evn |-> evn, evbad |-> evbad,
+                  evall |-> (~HasEvents(Inputs[ti]) \/ evn = Len(Inputs[ti].events))]);
 }
 } *)
 \* BEGIN TRANSLATION
 CONSTANT defaultInitValue
 VARIABLES pc, ti, C, ideal, visited, nw, ew, nwc, ewc, tcd, retCycles, retErr, 
-          roots, root, result, stack, nodeID, path, cycles, idx, outs, cur, 
-          edge, epath, isTC, tw, np
+          roots, root, result, evn, evbad, stack, nodeID, path, cycles, idx, 
+          outs, cur, edge, epath, isTC, tw, np
 
 vars == << pc, ti, C, ideal, visited, nw, ew, nwc, ewc, tcd, retCycles, 
-           retErr, roots, root, result, stack, nodeID, path, cycles, idx, 
-           outs, cur, edge, epath, isTC, tw, np >>
+           retErr, roots, root, result, evn, evbad, stack, nodeID, path, 
+           cycles, idx, outs, cur, edge, epath, isTC, tw, np >>
 
 Init == (* Global variables *)
         /\ ti \in 1..Len(Inputs)
@@ -458,6 +501,8 @@ Init == (* Global variables *)
         /\ roots = <<>>
         /\ root = ""
         /\ result = "running"
+        /\ evn = 0
+        /\ evbad = 0
         (* Procedure CalcNode *)
         /\ nodeID = defaultInitValue
         /\ path = defaultInitValue
@@ -490,15 +535,15 @@ cn0 == /\ pc = "cn0"
                   /\ UNCHANGED << retCycles, retErr, stack, nodeID, path, 
                                   cycles, idx, outs, cur >>
        /\ UNCHANGED << ti, C, ideal, visited, nw, ew, nwc, ewc, tcd, roots, 
-                       root, result, edge, epath, isTC, tw, np >>
+                       root, result, evn, evbad, edge, epath, isTC, tw, np >>
 
 cn1 == /\ pc = "cn1"
        /\ visited' = (visited \cup {nodeID})
        /\ outs' = C.Out[nodeID]
        /\ pc' = "cn2"
        /\ UNCHANGED << ti, C, ideal, nw, ew, nwc, ewc, tcd, retCycles, retErr, 
-                       roots, root, result, stack, nodeID, path, cycles, idx, 
-                       cur, edge, epath, isTC, tw, np >>
+                       roots, root, result, evn, evbad, stack, nodeID, path, 
+                       cycles, idx, cur, edge, epath, isTC, tw, np >>
 
 cn2 == /\ pc = "cn2"
        /\ IF idx <= Len(outs)
@@ -538,9 +583,16 @@ cn2 == /\ pc = "cn2"
                   /\ UNCHANGED << ew, nwc, ewc, stack, idx, cur, edge, epath, 
                                   isTC, tw, np >>
        /\ UNCHANGED << ti, C, ideal, visited, nw, tcd, retCycles, retErr, 
-                       roots, root, result, nodeID, path, cycles, outs >>
+                       roots, root, result, evn, evbad, nodeID, path, cycles, 
+                       outs >>
 
 cn3 == /\ pc = "cn3"
+       /\ IF evbad = 0 /\ ~EvMatch(Inputs[ti], evn + 1, ([k |-> "edge", id |-> nodeID, pos |-> C.EPos[cur][2], w |-> WOut(ew[cur]), wc |-> ewc[cur], cyc |-> retCycles, err |-> ErrCls(retErr)]))
+             THEN /\ PrintT(ToJson([rec |-> "evmismatch", id |-> Inputs[ti].id, n |-> evn + 1, got |-> ([k |-> "edge", id |-> nodeID, pos |-> C.EPos[cur][2], w |-> WOut(ew[cur]), wc |-> ewc[cur], cyc |-> retCycles, err |-> ErrCls(retErr)]), want |-> EvWant(Inputs[ti], evn + 1)]))
+                  /\ evbad' = evn + 1
+             ELSE /\ TRUE
+                  /\ evbad' = evbad
+       /\ evn' = evn + 1
        /\ IF ewc[cur] = {}
              THEN /\ ewc' = [ewc EXCEPT ![cur] = nwc[C.To[cur]]]
              ELSE /\ TRUE
@@ -567,7 +619,7 @@ cn3b == /\ pc = "cn3b"
                    /\ pc' = "cn2"
                    /\ UNCHANGED << retCycles, stack, nodeID, path, outs, cur >>
         /\ UNCHANGED << ti, C, ideal, visited, nw, ew, ewc, tcd, retErr, roots, 
-                        root, result, edge, epath, isTC, tw, np >>
+                        root, result, evn, evbad, edge, epath, isTC, tw, np >>
 
 cn4 == /\ pc = "cn4"
        /\ \E choice \in ChoiceSet(C, nodeID, [nw |-> nw, ew |-> ew, nwc |-> nwc, ewc |-> ewc, tcd |-> tcd]):
@@ -587,8 +639,8 @@ cn4 == /\ pc = "cn4"
        /\ nodeID' = Head(stack).nodeID
        /\ path' = Head(stack).path
        /\ stack' = Tail(stack)
-       /\ UNCHANGED << ti, C, ideal, visited, roots, root, result, edge, epath, 
-                       isTC, tw, np >>
+       /\ UNCHANGED << ti, C, ideal, visited, roots, root, result, evn, evbad, 
+                       edge, epath, isTC, tw, np >>
 
 CalcNode == cn0 \/ cn1 \/ cn2 \/ cn3 \/ cn3b \/ cn4
 
@@ -620,7 +672,8 @@ ce0 == /\ pc = "ce0"
                   /\ UNCHANGED << ew, tcd, retCycles, retErr, stack, edge, 
                                   epath, isTC, tw, np >>
        /\ UNCHANGED << ti, C, ideal, visited, nw, nwc, ewc, roots, root, 
-                       result, nodeID, path, cycles, idx, outs, cur >>
+                       result, evn, evbad, nodeID, path, cycles, idx, outs, 
+                       cur >>
 
 ce1 == /\ pc = "ce1"
        /\ np' = Append(epath, edge)
@@ -641,9 +694,16 @@ ce1 == /\ pc = "ce1"
        /\ cur' = 0
        /\ pc' = "cn0"
        /\ UNCHANGED << ti, C, ideal, visited, nw, ew, nwc, ewc, tcd, retCycles, 
-                       retErr, roots, root, result, edge, epath, isTC, tw >>
+                       retErr, roots, root, result, evn, evbad, edge, epath, 
+                       isTC, tw >>
 
 ce2 == /\ pc = "ce2"
+       /\ IF evbad = 0 /\ ~EvMatch(Inputs[ti], evn + 1, ([k |-> "node", id |-> C.To[edge], pos |-> 0, w |-> WOut(nw[C.To[edge]]), wc |-> nwc[C.To[edge]], cyc |-> retCycles, err |-> ErrCls(retErr)]))
+             THEN /\ PrintT(ToJson([rec |-> "evmismatch", id |-> Inputs[ti].id, n |-> evn + 1, got |-> ([k |-> "node", id |-> C.To[edge], pos |-> 0, w |-> WOut(nw[C.To[edge]]), wc |-> nwc[C.To[edge]], cyc |-> retCycles, err |-> ErrCls(retErr)]), want |-> EvWant(Inputs[ti], evn + 1)]))
+                  /\ evbad' = evn + 1
+             ELSE /\ TRUE
+                  /\ evbad' = evbad
+       /\ evn' = evn + 1
        /\ IF retErr # "none"
              THEN /\ pc' = Head(stack).pc
                   /\ isTC' = Head(stack).isTC
@@ -685,7 +745,8 @@ ce3 == /\ pc = "ce3"
                   /\ UNCHANGED << ew, tcd, retCycles, retErr, stack, edge, 
                                   epath, isTC, tw, np >>
        /\ UNCHANGED << ti, C, ideal, visited, nw, nwc, ewc, roots, root, 
-                       result, nodeID, path, cycles, idx, outs, cur >>
+                       result, evn, evbad, nodeID, path, cycles, idx, outs, 
+                       cur >>
 
 ce4 == /\ pc = "ce4"
        /\ isTC' = (retCycles # {})
@@ -698,8 +759,8 @@ ce4 == /\ pc = "ce4"
        /\ ew' = [ew EXCEPT ![edge] = IF C.Kind[edge] \in {"ttu", "direct"} THEN Bump(tw') ELSE tw']
        /\ pc' = "ce5"
        /\ UNCHANGED << ti, C, ideal, visited, nw, nwc, ewc, retErr, roots, 
-                       root, result, stack, nodeID, path, cycles, idx, outs, 
-                       cur, edge, epath, np >>
+                       root, result, evn, evbad, stack, nodeID, path, cycles, 
+                       idx, outs, cur, edge, epath, np >>
 
 ce5 == /\ pc = "ce5"
        /\ pc' = Head(stack).pc
@@ -710,8 +771,8 @@ ce5 == /\ pc = "ce5"
        /\ epath' = Head(stack).epath
        /\ stack' = Tail(stack)
        /\ UNCHANGED << ti, C, ideal, visited, nw, ew, nwc, ewc, tcd, retCycles, 
-                       retErr, roots, root, result, nodeID, path, cycles, idx, 
-                       outs, cur >>
+                       retErr, roots, root, result, evn, evbad, nodeID, path, 
+                       cycles, idx, outs, cur >>
 
 CalcEdge == ce0 \/ ce1 \/ ce2 \/ ce3 \/ ce4 \/ ce5
 
@@ -724,9 +785,9 @@ mi == /\ pc = "mi"
       /\ ewc' = [e \in C'.E |-> {}]
       /\ tcd' = [n \in C'.N |-> {}]
       /\ pc' = "mb"
-      /\ UNCHANGED << ti, visited, retCycles, retErr, roots, root, result, 
-                      stack, nodeID, path, cycles, idx, outs, cur, edge, epath, 
-                      isTC, tw, np >>
+      /\ UNCHANGED << ti, visited, retCycles, retErr, roots, root, result, evn, 
+                      evbad, stack, nodeID, path, cycles, idx, outs, cur, edge, 
+                      epath, isTC, tw, np >>
 
 mb == /\ pc = "mb"
       /\ PrintT(ToJson([rec |-> "input", id |-> Inputs[ti].id, m |-> Inputs[ti].m, g |-> GraphOut(Graph(Inputs[ti].m)),
@@ -740,8 +801,8 @@ mb == /\ pc = "mb"
                             /\ UNCHANGED result
       /\ pc' = "m0"
       /\ UNCHANGED << ti, C, ideal, visited, nw, ew, nwc, ewc, tcd, retCycles, 
-                      retErr, roots, root, stack, nodeID, path, cycles, idx, 
-                      outs, cur, edge, epath, isTC, tw, np >>
+                      retErr, roots, root, evn, evbad, stack, nodeID, path, 
+                      cycles, idx, outs, cur, edge, epath, isTC, tw, np >>
 
 m0 == /\ pc = "m0"
       /\ IF result = "running" /\ Unvisited(C, visited) # {}
@@ -752,8 +813,8 @@ m0 == /\ pc = "m0"
             ELSE /\ pc' = "m2"
                  /\ UNCHANGED << roots, root >>
       /\ UNCHANGED << ti, C, ideal, visited, nw, ew, nwc, ewc, tcd, retCycles, 
-                      retErr, result, stack, nodeID, path, cycles, idx, outs, 
-                      cur, edge, epath, isTC, tw, np >>
+                      retErr, result, evn, evbad, stack, nodeID, path, cycles, 
+                      idx, outs, cur, edge, epath, isTC, tw, np >>
 
 m0b == /\ pc = "m0b"
        /\ /\ nodeID' = root
@@ -773,9 +834,16 @@ m0b == /\ pc = "m0b"
        /\ cur' = 0
        /\ pc' = "cn0"
        /\ UNCHANGED << ti, C, ideal, visited, nw, ew, nwc, ewc, tcd, retCycles, 
-                       retErr, roots, root, result, edge, epath, isTC, tw, np >>
+                       retErr, roots, root, result, evn, evbad, edge, epath, 
+                       isTC, tw, np >>
 
 m1 == /\ pc = "m1"
+      /\ IF evbad = 0 /\ ~EvMatch(Inputs[ti], evn + 1, ([k |-> "root", id |-> root, pos |-> 0, w |-> WOut(nw[root]), wc |-> nwc[root], cyc |-> retCycles, err |-> ErrCls(retErr), full |-> FullState(C, nw, ew, nwc, ewc)]))
+            THEN /\ PrintT(ToJson([rec |-> "evmismatch", id |-> Inputs[ti].id, n |-> evn + 1, got |-> ([k |-> "root", id |-> root, pos |-> 0, w |-> WOut(nw[root]), wc |-> nwc[root], cyc |-> retCycles, err |-> ErrCls(retErr), full |-> FullState(C, nw, ew, nwc, ewc)]), want |-> EvWant(Inputs[ti], evn + 1)]))
+                 /\ evbad' = evn + 1
+            ELSE /\ TRUE
+                 /\ evbad' = evbad
+      /\ evn' = evn + 1
       /\ IF retErr # "none"
             THEN /\ result' = retErr
             ELSE /\ IF retCycles # {}
@@ -797,15 +865,16 @@ m2 == /\ pc = "m2"
                  /\ UNCHANGED result
       /\ pc' = "m3"
       /\ UNCHANGED << ti, C, ideal, visited, nw, ew, nwc, ewc, tcd, retCycles, 
-                      retErr, roots, root, stack, nodeID, path, cycles, idx, 
-                      outs, cur, edge, epath, isTC, tw, np >>
+                      retErr, roots, root, evn, evbad, stack, nodeID, path, 
+                      cycles, idx, outs, cur, edge, epath, isTC, tw, np >>
 
 m3 == /\ pc = "m3"
-      /\ PrintT(ToJson([rec |-> "outcome", id |-> Inputs[ti].id, roots |-> roots, out |-> Outcome(C, result, nw, ew, nwc, ewc)]))
+      /\ PrintT(ToJson([rec |-> "outcome", id |-> Inputs[ti].id, roots |-> roots, out |-> Outcome(C, result, nw, ew, nwc, ewc), evn |-> evn, evbad |-> evbad,
+                        evall |-> (~HasEvents(Inputs[ti]) \/ evn = Len(Inputs[ti].events))]))
       /\ pc' = "Done"
       /\ UNCHANGED << ti, C, ideal, visited, nw, ew, nwc, ewc, tcd, retCycles, 
-                      retErr, roots, root, result, stack, nodeID, path, cycles, 
-                      idx, outs, cur, edge, epath, isTC, tw, np >>
+                      retErr, roots, root, result, evn, evbad, stack, nodeID, 
+                      path, cycles, idx, outs, cur, edge, epath, isTC, tw, np >>
 
 (* Allow infinite stuttering to prevent deadlock on termination. *)
 Terminating == pc = "Done" /\ UNCHANGED vars
@@ -846,6 +915,8 @@ EdgeWeightIsTargetPlusHop == Done /\ Accepted /\ ideal.reasons = {} =>
                             TypeWeightsE(ImplOut.ew) = ideal.ew \/ KnownClass(C)
 \* C11
 WildcardsAreReachablePublicTypes == Done /\ Accepted => ImplOut.nwc = ideal.wild /\ ImplOut.ewc = ideal.ewild
-\* step invariants that explain failures
+\* trace validation at event level: behaviours that have parted from the logged events are not the run that was recorded
+EvOK == evbad = 0
+TraceView == <<View, evn, evbad>>
 
 =============================================================================
